@@ -15,7 +15,9 @@
     are per message. *)
 From WM Require Import Base.Prelude Message.Model Message.Proofs Handler.RouterHandle Handler.RouterProofs
   Handler.Poison Handler.PoisonProofs Handler.PoisonConc Handler.PoisonConcProofs
-  Handler.PoisonRetry Handler.PoisonRetryProofs.
+  Handler.PoisonRetry Handler.PoisonRetryProofs
+  Handler.PoisonMeta Handler.PoisonProofs3 Handler.PoisonConcSpec Handler.PoisonConcProofs3
+  Handler.PoisonRetryObs Handler.PoisonRetryProofs3 Handler.PoisonCtx Handler.PoisonCtxProofs.
 From WM Require Handler.Retry.
 
 (** PoisonQueue / PoisonQueueWithFilter yield a middleware iff the topic is non-empty *)
@@ -329,6 +331,170 @@ End C13_retry.
 Print Assumptions C13_retry_success_not_poisoned.
 Print Assumptions C13_retry_poisoned_exactly_when_all_attempts_failed.
 Print Assumptions C13_retry_acked_implies_handled_or_poisoned.
+
+(** ** round "proofs 3" *)
+
+(** exactly which metadata keys the poisoned message carries: those it had plus the four
+    documented ones - no other key appears, none disappears (values: C13_poison_metadata) *)
+Theorem C13_exactly_four_keys_added : forall c reason md k,
+  In k (mkeys (stamp c reason md)) <-> poison_key k \/ In k (mkeys md).
+Proof. exact stamp_keys. Qed.
+
+(** a key is in the key list iff the map answers for it (so the statement above is about Get) *)
+Theorem C13_keys_are_what_get_answers : forall k m, mget k m <> None <-> In k (mkeys m).
+Proof. exact mget_in_keys. Qed.
+
+(** the map stays a map: each key once (strictly sorted representation preserved) *)
+Theorem C13_metadata_stays_wellformed : forall c reason md,
+  meta_wf md = true -> meta_wf (stamp c reason md) = true.
+Proof. exact stamp_wf. Qed.
+
+(** redelivery of an already poisoned message: the key set is unchanged, only values move *)
+Theorem C13_redelivery_keeps_key_set : forall c reason md,
+  (forall k, poison_key k -> In k (mkeys md)) ->
+  forall k, In k (mkeys (stamp c reason md)) <-> In k (mkeys md).
+Proof. exact stamp_keys_redelivery. Qed.
+
+Section C13_filters.
+  Context {M : Type} (txt : err -> N).
+
+  (** PoisonQueueWithFilter: EVERY outcome of the filter in one table *)
+  Theorem C13_filter_outcome_table : forall t f c0 m0 seen (h : hscript M) pp e outs,
+    hs_out h = HFail e outs ->
+    let m := fst (run_acts (hs_acts h) (m0, c0)) in
+    let c := snd (run_acts (hs_acts h) (m0, c0)) in
+    poison txt (PC t (Some f)) c0 m0 seen h pp =
+      match f e with
+      | FYes => let '(r, ev, m') := salvage txt (PC t (Some f)) c m seen e outs pp in (r, PFilter e :: ev, m')
+      | FNo => (MRet outs (Some e), [PFilter e], m)
+      | FPanics => (MPanic, [PFilter e], m)
+      | FNoFunc => (MPanic, [], m)
+      end.
+  Proof. exact (poison_filter_table txt). Qed.
+
+  (** PoisonQueue(pub, topic) = PoisonQueueWithFilter(pub, topic, accept all), the question to
+      the built-in filter not being observable *)
+  Theorem C13_default_filter_is_accept_all : forall t c0 m0 seen (h : hscript M) pp,
+    let '(r1, ev1, m1) := poison txt (PC t None) c0 m0 seen h pp in
+    let '(r2, ev2, m2) := poison txt (PC t (Some (fun _ => FYes))) c0 m0 seen h pp in
+    r1 = r2 /\ m1 = m2 /\ ev1 = no_filter_events ev2.
+  Proof. exact (default_is_accept_all txt). Qed.
+End C13_filters.
+
+(** the harness's concrete filters, ordered by strength; negation swaps yes/no only *)
+Theorem C13_filters_eq_cause_is : forall t e,
+  (filter_sem (FEq t) e = FYes -> filter_sem (FCause t) e = FYes)
+  /\ (filter_sem (FCause t) e = FYes -> filter_sem (FIs t) e = FYes).
+Proof. exact filters_ordered. Qed.
+
+Theorem C13_filter_negation : forall f e,
+  (filter_sem (FNot f) e = FYes <-> filter_sem f e = FNo)
+  /\ (filter_sem (FNot f) e = FNo <-> filter_sem f e = FYes)
+  /\ (filter_sem (FNot f) e = FPanics <-> filter_sem f e = FPanics)
+  /\ (filter_sem (FNot f) e = FNoFunc <-> filter_sem f e = FNoFunc)
+  /\ filter_sem (FNot (FNot f)) e = filter_sem f e.
+Proof. exact fnot_swaps. Qed.
+
+Section C13_refinement.
+  Context {M : Type} (txt : err -> N).
+
+  (** the concurrent semantics of one middleware value REFINES the atomic specification (each
+      message handled in one indivisible [poison] step): whatever the schedule, whatever the
+      order the specification picks, every message that took its steps ends in the same state
+      with the same events *)
+  Theorem C13_concurrent_refines_atomic : forall cfg (jobs : nat -> job M) sched order,
+    (forall i, In i order -> 4 <= count_occ Nat.eq_dec sched i) ->
+    forall i, In i order ->
+      threads (sys_run txt false cfg jobs sched) i = threads (spec_run txt cfg jobs order) i
+      /\ proj i (log (sys_run txt false cfg jobs sched)) = proj i (log (spec_run txt cfg jobs order)).
+  Proof. exact (conc_refines_atomic txt). Qed.
+
+  (** serializability: the atomic run's log is the plain concatenation of the sequential
+      model's event lists, and every complete concurrent run agrees with it message by message *)
+  Theorem C13_concurrent_serializable : forall cfg (jobs : nat -> job M) sched order, NoDup order ->
+    (forall i, In i order -> 4 <= count_occ Nat.eq_dec sched i) ->
+    log (spec_run txt cfg jobs order) = serial_log txt cfg jobs order
+    /\ forall i, In i order ->
+         threads (sys_run txt false cfg jobs sched) i = threads (spec_run txt cfg jobs order) i
+         /\ proj i (log (sys_run txt false cfg jobs sched)) = proj i (serial_log txt cfg jobs order).
+  Proof. exact (conc_serializable txt). Qed.
+End C13_refinement.
+
+Section C13_retry_end_to_end.
+  Context (txt : err -> N) (errof : N -> err).
+
+  (** PoisonQueue(Retry(h)) in the Router, forward: every attempt fails and Retry runs to
+      exhaustion (1 + max(1, MaxRetries) invocations), the filter accepts the LAST error, the
+      message has a metadata map => exactly one Publish of the message with the same UUID and
+      payload and the stamped metadata (reason = last error) ; publisher accepts => ACKED and
+      success returned; publisher fails => NACKED and the last error followed by the wrapped
+      publish error returned (nothing is lost: the broker redelivers); panic / nil => NACKED *)
+  Theorem C13_retry_exhausted_poisoned_once_and_acked : forall cfg c0 m0 acts rc h env pp pk pb md,
+    (forall j, j <= Retry.iterations rc -> Retry.is_ok (h j) = false) ->
+    (forall j, 1 <= j <= Retry.iterations rc -> Retry.s_ctx (Retry.e_sel env j) = false) ->
+    let k := Retry.iterations rc in
+    let le := errof (snd (h k)) in
+    let m := fst (run_acts acts (m0, c0)) in
+    let c := snd (run_acts acts (m0, c0)) in
+    let pm := PM (pm_uuid m0) (pm_payload m) (Some (stamp c (txt le) md)) in
+    accepts cfg le = FYes -> pm_meta m = Some md ->
+    let '(ms, tr, r, mf) := poison_retry_in_router txt errof cfg c0 m0 PreNone acts rc h env pp pk pb in
+    Retry.calls (Retry.r_trace (Retry.retry rc h env)) = seq 0 (S k)
+    /\ match pp with
+       | PPAccept => poison_pubs (pproj tr) = [(pq_topic cfg, pm)] /\ pub_oks (pproj tr) = 1
+                     /\ st ms = Acked /\ r = MRet [] None /\ mf = pm
+       | PPError pe => poison_pubs (pproj tr) = [(pq_topic cfg, pm)] /\ pub_oks (pproj tr) = 0
+                     /\ st ms = Nacked /\ r = MRet [] (Some (multi_append le (EWrapCause WRAP_MSG pe))) /\ mf = pm
+       | PPPanic => poison_pubs (pproj tr) = [(pq_topic cfg, pm)] /\ pub_oks (pproj tr) = 0
+                     /\ st ms = Nacked /\ r = MPanic /\ mf = pm
+       | PPNil => poison_pubs (pproj tr) = [] /\ st ms = Nacked /\ r = MPanic
+       end.
+  Proof. exact (retry_router_exhausted txt errof). Qed.
+
+  (** the acceptor of the PoisonQueue(Retry(h)) scenario (handler read off the observation:
+      PoisonRetryObs.obs_h, used by Corr/C13Retry.v) accepts every run of the composed model *)
+  Theorem C13_retry_acceptor_model_accepted : forall cfg c0 m0 acts rc h env pp pk pb,
+    let '(ms, tr, r, mf) := poison_retry_in_router txt errof cfg c0 m0 PreNone acts rc h env pp pk pb in
+    c13_monitor txt N.eqb cfg c0 m0 (obs_h errof h (attempts_made rc h env) acts r) pp pk pb tr (st ms) r mf = true.
+  Proof. exact (retry_obs_accepted txt errof). Qed.
+End C13_retry_end_to_end.
+Print Assumptions C13_exactly_four_keys_added.
+Print Assumptions C13_keys_are_what_get_answers.
+Print Assumptions C13_metadata_stays_wellformed.
+Print Assumptions C13_redelivery_keeps_key_set.
+Print Assumptions C13_filter_outcome_table.
+Print Assumptions C13_default_filter_is_accept_all.
+Print Assumptions C13_filters_eq_cause_is.
+Print Assumptions C13_filter_negation.
+Print Assumptions C13_concurrent_refines_atomic.
+Print Assumptions C13_concurrent_serializable.
+Print Assumptions C13_retry_exhausted_poisoned_once_and_acked.
+Print Assumptions C13_retry_acceptor_model_accepted.
+
+(** ** where "topic, handler and subscriber" come from: Router.addHandlerContext + the readers
+    of router_context.go (Handler/PoisonCtx.v) *)
+
+(** as the code is now, whatever context the consumed message already carried, all five readers
+    answer with the CONSUMING handler's values and the poison queue names that handler *)
+Theorem C13_context_names_consuming_handler : forall b p,
+  add_handler_ctx true b p = RV (hc_name b) (hc_pubname b) (hc_subname b) (hc_subtopic b) (hc_pubtopic b)
+  /\ poison_view (add_handler_ctx true b p) = RC (hc_subtopic b) (hc_name b) (hc_subname b).
+Proof. exact ctx_names_consumer. Qed.
+
+Theorem C13_context_keys_written : forall via b reason md,
+  mget K_TOPIC (stamp (poison_view (consumed_ctx true via b)) reason md) = Some (hc_subtopic b)
+  /\ mget K_HANDLER (stamp (poison_view (consumed_ctx true via b)) reason md) = Some (hc_name b)
+  /\ mget K_SUB (stamp (poison_view (consumed_ctx true via b)) reason md) = Some (hc_subname b).
+Proof. exact ctx_stamped. Qed.
+
+(** the pinned behaviour (values written only when non-empty) named another handler's
+    subscriber for a re-emitted object: the theorem above is sensitive to exactly the repair *)
+Theorem C13_context_pinned_behaviour_refuted :
+  exists a b, poison_view (consumed_ctx false (Some a) b) <> RC (hc_subtopic b) (hc_name b) (hc_subname b).
+Proof. exact ctx_pinned_refuted. Qed.
+Print Assumptions C13_context_names_consuming_handler.
+Print Assumptions C13_context_keys_written.
+Print Assumptions C13_context_pinned_behaviour_refuted.
 
 (** the same schedule on the real semantics publishes message 0 *)
 Example C13_inflight_witness :
